@@ -135,6 +135,10 @@ type Scenario struct {
 	Procs   []*Proc
 	Tags    []string // known-finding reproductions etc.
 	Note    string
+	// DefaultLoc: the scenario uses go-snaps' default location (next to the test file), so it runs
+	// in a driver copy of its own; Init paths are relative to the driver directory and the
+	// projected directory is <driver>/__snapshots__.
+	DefaultLoc bool
 }
 
 // Result of running a scenario
@@ -143,6 +147,7 @@ type ScenarioRun struct {
 	Dir  string        // absolute scenario directory
 	Raw  [][]*RawEvent // per process
 	Err  error
+	Drv  string // driver directory the scenario ran in (tdir of the contract)
 }
 
 func (s *Scenario) stepByID() map[string]*Step {
@@ -232,20 +237,24 @@ var epoch = time.Unix(978307200, 0)
 
 // runScenarios executes scenarios against the driver. Bulk processes of scenarios with identical
 // process signatures share one OS process per process index; real processes run one per scenario.
-func runScenarios(sc *Scratch, d *Driver, scs []*Scenario, workers int) ([]*ScenarioRun, error) {
+func runScenarios(sc *Scratch, d *Driver, scs []*Scenario, workers int, pool ...chan *Driver) ([]*ScenarioRun, error) {
 	root := sc.Sub(sc.Next("run"))
 	runs := make([]*ScenarioRun, len(scs))
 	groups := map[string][]int{}
 	var order []string
 	for i, s := range scs {
 		s.assignIDs()
-		runs[i] = &ScenarioRun{Sc: s, Dir: filepath.Join(root, s.ID), Raw: make([][]*RawEvent, len(s.Procs))}
-		if err := writeInit(runs[i].Dir, s.Init); err != nil {
+		runs[i] = &ScenarioRun{Sc: s, Dir: filepath.Join(root, s.ID), Raw: make([][]*RawEvent, len(s.Procs)), Drv: d.Dir}
+		if s.DefaultLoc {
+			if len(pool) == 0 {
+				return nil, fmt.Errorf("scenario %s needs a driver pool", s.ID)
+			}
+		} else if err := writeInit(runs[i].Dir, s.Init); err != nil {
 			return nil, err
 		}
 		sig := ""
 		for _, p := range s.Procs {
-			if p.Real {
+			if p.Real || s.DefaultLoc {
 				sig = fmt.Sprintf("real:%d", i) // own group
 				break
 			}
@@ -278,6 +287,21 @@ func runScenarios(sc *Scratch, d *Driver, scs []*Scenario, workers int) ([]*Scen
 		first := scs[idx[0]]
 		jdir := filepath.Join(root, fmt.Sprintf("_job%d", j))
 		os.MkdirAll(jdir, 0o755)
+		d := d
+		if first.DefaultLoc {
+			d = <-pool[0]
+			defer func() {
+				os.RemoveAll(filepath.Join(d.Dir, "__snapshots__"))
+				pool[0] <- d
+			}()
+			r := runs[idx[0]]
+			r.Drv = d.Dir
+			r.Dir = d.Dir
+			os.RemoveAll(filepath.Join(d.Dir, "__snapshots__"))
+			if err := writeInit(d.Dir, first.Init); err != nil {
+				return err
+			}
+		}
 		for pi := range first.Procs {
 			p0 := first.Procs[pi]
 			script := &Script{Configs: map[string]*Cfg{}}
@@ -290,6 +314,9 @@ func runScenarios(sc *Scratch, d *Driver, scs []*Scenario, workers int) ([]*Scen
 				script.Clean = p0.Clean
 				script.State = p0.State
 				script.Watch = []string{r.Dir}
+				if first.DefaultLoc {
+					script.Watch = []string{filepath.Join(d.Dir, "__snapshots__")}
+				}
 			} else {
 				for _, i := range idx {
 					s := scs[i]
